@@ -660,6 +660,7 @@ def _lift_arm(expr, fname):
     path = [x for x in iv[:bo] if x != "::"]
     bc = match_close(inner, bo)
     fields = []
+    templates = {}
     for f in split_commas(inner[bo + 1:bc]):
         fv = [x.v for x in f]
         if len(fv) < 3 or fv[1] != ":":
@@ -678,7 +679,13 @@ def _lift_arm(expr, fname):
         for v in variants:
             seen.append(v)
         fields.append((name, seen, mode, "lookup_token" in txt or "lookup (" in txt))
-    return dict(enum=path[-2] if len(path) >= 2 else None, variant=path[-1], fields=fields, line=expr[0].line)
+        # the field's expression with the operand variant names blanked: the generator emits a handful of such templates
+        tv = list(fv[2:])
+        for x in range(len(tv) - 4):
+            if tv[x:x + 4] == ["dr", "::", "Operand", "::"]:
+                tv[x + 4] = "V"
+        templates[name] = " ".join(tv)
+    return dict(enum=path[-2] if len(path) >= 2 else None, variant=path[-1], fields=fields, line=expr[0].line, templates=templates)
 
 
 def sr_enum_fields():
